@@ -369,3 +369,41 @@ func countMentions(bt *Built, okSub map[string]bool) int {
 	}
 	return n
 }
+
+// FlipAnnotations toggles @immutable / @constructor / @testonly on the first type of the first declaring package by
+// rewriting its doc comment only (every other byte of the program stays the same). Returns the type.
+func FlipAnnotations(bt *Built) *Type {
+	t := bt.Types[0]
+	for _, f := range t.Pkg.Files {
+		for _, d := range f.Decls {
+			if d.TypeDecl != t {
+				continue
+			}
+			var doc []string
+			has := map[string]bool{}
+			for _, l := range d.Doc {
+				switch {
+				case strings.HasPrefix(l, " @immutable"):
+					has["imm"] = true
+				case strings.HasPrefix(l, " @constructor"):
+					has["ctor"] = true
+				case strings.HasPrefix(l, " @testonly"):
+					has["tonl"] = true
+				default:
+					doc = append(doc, l)
+				}
+			}
+			if !has["imm"] {
+				doc = append(doc, " @immutable")
+			}
+			if !has["ctor"] {
+				doc = append(doc, " @constructor New"+t.Name)
+			}
+			if !has["tonl"] {
+				doc = append(doc, " @testonly")
+			}
+			d.Doc = doc
+		}
+	}
+	return t
+}
